@@ -1,5 +1,6 @@
 import A2Verif.Lemmas.FsDosInit
 import A2Verif.Lemmas.FsDosDelete
+import A2Verif.Lemmas.FsDosPutD
 import A2Verif.Props.C01
 import A2Verif.Props.C03
 import A2Verif.Props.C04
@@ -19,9 +20,6 @@ The reading of a disk is what the harness sees: the image after the VTOC buffer 
 set_option linter.unusedSimpArgs false
 namespace A2Verif.FsDos
 open A2Verif.Fs.Dos3x A2Verif.Read.Dos3x
-
-/-- the specification parameters of DOS 3.x (as `Drv/Fs.lean`: no stored length, type kept, lock flag) -/
-def dosParams : FsParams := { eofRule := fun _ => 0, keepsType := true, keepsAux := false, hasLock := true }
 
 /-- **The on-disk invariant** of a saved DOS 3.x image with `c` sectors per track: there is a layout `L`
 (catalog chain, one T/S list chain per live entry) such that the VTOC is sane (35 tracks, `c` sectors, 122 pairs),
@@ -214,6 +212,30 @@ theorem dos_delete_refines {d : Disk} {sb : List Nat} (h : DInv d sb) (name : By
     rw [hp]
     exact lift_refines' hvt hi (deleteM_refines (P := dosParams) hi hfn)
 
+/-- `put` of the concrete model refines the specification, for file images that fit one T/S list (at most 122
+chunk indices, no chunk longer than a sector): an accepted put inserts exactly one record on previously free
+sectors which reads back the stored chunks index for index; every refusal (wrong file system or chunk length, invalid
+name, empty image, name in use, not enough free sectors, catalog full, no type) leaves all files as they were and
+the volume well formed. -/
+theorem dos_put_refines {d : Disk} {sb : List Nat} (h : DInv d sb) (f : FImg) (hone : PutOneList f) :
+    DInv (put d f).2 sb ∧ ∃ pre post, reading d sb = .ok pre ∧ reading (put d f).2 sb = .ok post ∧
+      stepOk dosParams pre (.put (pathOf f.fullPath) (putChunks f) 0 (f.fsType.getD 0 0 % 128) 0) (isOk (put d f).1) post = true := by
+  unfold put
+  by_cases h1 : f.fsOk = true
+  · by_cases h2 : f.chunkLen = 256
+    · by_cases hv : isNameValid f.fullPath = true
+      · obtain ⟨fname, hfn, hfl, hfb⟩ := stringToFileName_ok hv
+        obtain ⟨v, L, hvt, hi⟩ := h
+        have hp : pathOf f.fullPath = pathOfName fname := by unfold pathOf; rw [hfn]
+        simp only [h1, Bool.not_true, Bool.false_eq_true, if_false, h2, ne_eq, not_true_eq_false, hv, hp]
+        exact lift_refines' hvt hi (putM_refines hi hone hfn hfl hfb)
+      · simp only [h1, Bool.not_true, Bool.false_eq_true, if_false, h2, ne_eq, not_true_eq_false, hv, Bool.not_false, if_true]
+        exact refused_same h _
+    · simp only [h1, Bool.not_true, Bool.false_eq_true, if_false, ne_eq, h2, not_false_eq_true, if_true]
+      exact refused_same h _
+  · simp only [h1, Bool.not_false, if_true]
+    exact refused_same h _
+
 /-! ## `init` -/
 
 /-- `init33(254,false)` / `init32(254,false)` on a blank 35-track image succeed and establish the invariant,
@@ -248,10 +270,6 @@ def Op.run (d : Disk) : Op → Bool × Disk
   | .lock name => (isOk (Fs.Dos3x.lock d name).1, (Fs.Dos3x.lock d name).2)
   | .unlock name => (isOk (Fs.Dos3x.unlock d name).1, (Fs.Dos3x.unlock d name).2)
   | .retype name ty => (isOk (Fs.Dos3x.retype d name ty).1, (Fs.Dos3x.retype d name ty).2)
-
-/-- the stored chunks of a file image in index order -/
-def putChunks (f : FImg) : List (Nat × Bytes) :=
-  (List.range f.endIdx).filterMap (fun i => (f.chunks.lookup i).map (fun d => (i, d)))
 
 /-- the abstract operation a concrete one stands for (names are stored upper-cased, blank-trimmed) -/
 def Op.abs : Op → FsOp
@@ -296,6 +314,23 @@ theorem meta_step_refines (op : Op) (hm : op.isMeta = true) : StepRefines op := 
   cases op with
   | put f => cases hm
   | delete name => cases hm
+  | rename old new => exact of_readings (dos_rename_refines h old new)
+  | lock name => exact of_readings (dos_lock_refines h name)
+  | unlock name => exact of_readings (dos_unlock_refines h name)
+  | retype name ty => exact of_readings (dos_retype_refines h name ty)
+
+/-- the scope of the proved refinement: `put` of a file image that fits one T/S list; no condition on the others -/
+def Op.ArgsOk : Op → Prop
+  | .put f => PutOneList f
+  | _ => True
+
+/-- **Refinement, one step**: every operation of the concrete model (within `ArgsOk`) keeps the invariant and is a
+step the abstract specification allows -/
+theorem step_refines (op : Op) (ha : op.ArgsOk) : StepRefines op := by
+  intro d sb h
+  cases op with
+  | put f => exact of_readings (dos_put_refines h f ha)
+  | delete name => exact of_readings (dos_delete_refines h name)
   | rename old new => exact of_readings (dos_rename_refines h old new)
   | lock name => exact of_readings (dos_lock_refines h name)
   | unlock name => exact of_readings (dos_unlock_refines h name)
@@ -430,5 +465,115 @@ theorem dos_get_returns_last_put_partial {sb : List Nat} {d : Disk} (h : DInv d 
     rw [e]; exact hq op ho)
   rw [heq] at hg
   exact ⟨g, hg, hc, ht rfl, hd⟩
+
+
+/-! ## the history-level theorems, unconditional within `ArgsOk`
+
+Histories of `put` (files that fit one T/S list), `delete`, `rename`, `lock`, `unlock`, `retype`, started from any
+disk satisfying the invariant (e.g. a freshly initialised one, `dos_init_establishes_inv`). -/
+
+theorem full_history_refines {sb : List Nat} (ops : List Op) {d : Disk} (h : DInv d sb) (ha : ∀ op ∈ ops, op.ArgsOk) :
+    validFrom dosParams (volD d sb) (trace sb d ops) ∧ DInv (finalDisk d ops) sb ∧
+    finalVol (volD d sb) (trace sb d ops) = volD (finalDisk d ops) sb :=
+  history_refines ops h (fun op ho => step_refines op (ha op ho))
+
+/-- C03 for the concrete DOS model: the disk after **every** step of every history, successful or refused, is read
+by the independent reader as a well-formed volume -/
+theorem dos_states_well_formed {sb : List Nat} {d : Disk} (h : DInv d sb) {ops : List Op} (ha : ∀ op ∈ ops, op.ArgsOk) :
+    (∀ s ∈ trace sb d ops, s.post.wfB = true) ∧
+    reading (finalDisk d ops) sb = .ok (volD (finalDisk d ops) sb) ∧ (volD (finalDisk d ops) sb).wfB = true :=
+  dos_states_well_formed_partial h (fun op ho => step_refines op (ha op ho))
+
+/-- C02 for the concrete DOS model: a file that no operation of the history names is found bit-identical
+(content, type, lock flag, sectors) in the reading of the final disk -/
+theorem dos_bystanders_survive {sb : List Nat} {d : Disk} (h : DInv d sb) {ops : List Op} (ha : ∀ op ∈ ops, op.ArgsOk)
+    {q : Bytes} {g : FileRec} (hg : (volD d sb).lookup q = some g) (hq : ∀ op ∈ ops, q ∉ op.abs.targets) :
+    (volD (finalDisk d ops) sb).lookup q = some g :=
+  dos_bystanders_survive_partial h (fun op ho => step_refines op (ha op ho)) hg hq
+
+/-- C05 for the concrete DOS model: the names the reader lists after a history are exactly the fold of the history
+over the initial listing (accepted puts add, accepted deletes remove, accepted renames replace, everything else —
+and every refusal — changes nothing), and they are pairwise different -/
+theorem dos_listing_is_history_fold {sb : List Nat} {d : Disk} (h : DInv d sb) {ops : List Op} (ha : ∀ op ∈ ops, op.ArgsOk) (q : Bytes) :
+    (q ∈ (volD (finalDisk d ops) sb).paths ↔ q ∈ foldPaths (volD d sb).paths (trace sb d ops)) ∧
+    (volD (finalDisk d ops) sb).paths.Nodup :=
+  dos_listing_is_history_fold_partial h (fun op ho => step_refines op (ha op ho)) q
+
+/-- C01 for the concrete DOS model: after an accepted `put` of a file that fits one T/S list, and any further
+history that does not name the file, the file the reader finds holds the stored chunks index for index, each
+beginning with the stored bytes, and the stored type -/
+theorem dos_get_returns_last_put {sb : List Nat} {d : Disk} (h : DInv d sb) {f : FImg} (hone : PutOneList f)
+    (hok : ((Op.put f).run d).1 = true) {ops : List Op} (ha : ∀ op ∈ ops, op.ArgsOk)
+    (hq : ∀ op ∈ ops, pathOf f.fullPath ∉ op.abs.targets) :
+    ∃ g, (volD (finalDisk ((Op.put f).run d).2 ops) sb).lookup (pathOf f.fullPath) = some g ∧
+      chunksMatch (putChunks f) g.chunks = true ∧ g.ftype = f.fsType.getD 0 0 % 128 ∧ g.isDir = false :=
+  dos_get_returns_last_put_partial h (step_refines (.put f) hone) hok (fun op ho => step_refines op (ha op ho)) hq
+
+/-- C04, acceptance clause (`dos_fits_is_accepted`, for files that fit one T/S list): a DOS file image with the
+right chunk length, at least one chunk, a type, a valid name not yet listed, for which the catalog has a free entry
+and `chunks + 1 = data + ⌈end/122⌉` sectors are free, **is accepted** — `put` returns `Ok(chunks + 1)`.  a2kit
+answers DISK FULL when the catalog is full, hence the slot hypothesis. -/
+theorem dos_fits_is_accepted {d : Disk} {sb : List Nat} {v : Bytes} {L : Lay} (hv : d.vtoc = some v)
+    (hi : WInv { c := d.c, raw := d.raw, v := v } sb L) {f : FImg} (hone : PutOneList f)
+    (hfs : f.fsOk = true) (hcl : f.chunkLen = 256) (hname : isNameValid f.fullPath = true) (hch : f.chunks.length ≠ 0)
+    (hty : f.fsType ≠ []) (hfresh : pathOf f.fullPath ∉ (volD d sb).paths)
+    (hslot : (slotIn (W.mk d.c d.raw v).img d.c L.cat).isSome = true) (hspace : f.chunks.length + 1 ≤ nfree v d.c) :
+    (put d f).1 = .ok (f.chunks.length + 1) := by
+  have hr := reading_toDisk hi
+  rw [toDisk_eq hv] at hr
+  have hvd : volD d sb = volOf (W.mk d.c d.raw v).img d.c sb L := by unfold volD; rw [hr]
+  rw [hvd] at hfresh
+  unfold put
+  simp only [hfs, Bool.not_true, Bool.false_eq_true, if_false, hcl, ne_eq, not_true_eq_false, hname]
+  rw [run_eq hv]
+  exact writeFile_accepts hi hone hname hch hty hfresh hslot hspace
+
+/-- C04, the reported free count: `stat().free_blocks` of the concrete model is the number of units the independent
+reader finds marked free in the VTOC bitmap of the flushed image -/
+theorem dos_stat_free_is_reading {d : Disk} {sb : List Nat} (h : DInv d sb) : (statFree d).1 = .ok (volD d sb).free := by
+  obtain ⟨v, L, hv, hi⟩ := h
+  have hr := reading_toDisk hi
+  rw [toDisk_eq hv] at hr
+  have hvd : volD d sb = volOf (W.mk d.c d.raw v).img d.c sb L := by unfold volD; rw [hr]
+  unfold statFree
+  rw [run_eq hv]
+  simp only [M.bind_apply, M.getV_apply, M.lift_apply]
+  rw [numFree_eq hi.ok.vok, hvd]
+  show _ = Except.ok (freeOf (W.mk d.c d.raw v).img d.c).length
+  rw [freeOf_eq hi.ok]
+  rfl
+
+/-! ## non-vacuity: a concrete history on a freshly initialised DOS 3.3 volume -/
+
+def exA : FImg := { fullPath := [72, 105], fsType := [4], chunks := [(0, [7, 7, 7, 7]), (2, [1, 2, 3])] }
+
+theorem exA_one : PutOneList exA := by
+  constructor
+  · decide
+  · intro k d hd
+    have : (k = 0 ∧ d = [7, 7, 7, 7]) ∨ (k = 2 ∧ d = [1, 2, 3]) := by
+      unfold exA at hd
+      simp only [List.lookup] at hd
+      by_cases h0 : k = 0
+      · subst h0; simp at hd; exact Or.inl ⟨rfl, hd.symm⟩
+      · have e0 : (k == 0) = false := by simpa using h0
+        rw [e0] at hd
+        by_cases h2 : k = 2
+        · subst h2; simp at hd; exact Or.inr ⟨rfl, hd.symm⟩
+        · have e2 : (k == 2) = false := by simpa using h2
+          rw [e2] at hd; cases hd
+    rcases this with ⟨_, rfl⟩ | ⟨_, rfl⟩ <;> simp
+
+/-- every state of this history (put a sparse file, lock it, a refused delete, unlock, rename, delete) on a fresh
+DOS 3.3 volume is well formed, and the names listed at the end are the fold of the history -/
+example : ∀ s ∈ trace (initSys 16) (init (blank 16) 254 16).2
+    [.put exA, .lock [72, 105], .delete [72, 105], .unlock [72, 105], .rename [72, 105] [89, 111], .delete [89, 111]],
+    s.post.wfB = true :=
+  (dos_states_well_formed (dos_init_establishes_inv (c := 16) (Or.inr rfl)).2 (by
+    intro op ho
+    simp only [List.mem_cons, List.mem_nil_iff, or_false] at ho
+    rcases ho with rfl | rfl | rfl | rfl | rfl | rfl
+    · exact exA_one
+    all_goals trivial)).1
 
 end A2Verif.FsDos
